@@ -13,7 +13,7 @@ COQ_PROPS = 'props/C18.v'
 PARTIAL = ('C18_spec & co. are proved for the model in EXACT arithmetic (rationals: exact floor(log10), exact half-even '
            'rounding, exact 10**e); the binary64 run of the same model code is tied to GTC by correspondence, and the '
            'agreement of the float steps (math.log10, value/10.**e, u_r*10.**p) with the exact ones is validated by the '
-           'oracle, not proved -- where they differ is listed as known findings K1-K3. The text is characterised as '
+           'oracle, not proved -- where they differ is listed as known findings K1-K3, K5 (K4, apply_format with exponent types, is fixed). The text is characterised as '
            'fixed_text(integer, decimals) pieces + the digit printer/reader round trip; a full string parser is not '
            'formalised. LaTeX/Unicode styling, grouping, # and repr assembly are covered by correspondence only; '
            'u = 0, non-finite x/u/dof and the locale type n are outside the model (it refuses).')
@@ -106,13 +106,19 @@ def check_format(x, u, d, ty, sign=''):
     if sign in ('', '-') and sg in ('+', ' '): return bad('unrequested sign character')
     e = floor_log10(U); ue0 = e - d + 1
     scaled = bool(ech or pct)
-    rel = Fraction(4, 2 ** 52) if scaled else Fraction(0)
+    # DESIGN 6/C18: where the exact value lies within 2 ulp of a rounding tie either neighbour is accepted (math.log10 of
+    # a double just below a power of ten may land on the integer, which moves a near-tie the other way at 15 digits);
+    # the scaled types divide by an inexact factor first: 4 ulp
+    rel = Fraction(4, 2 ** 52) if scaled else Fraction(2, 2 ** 52)
     ok_u = []
     for N in candidates(U, ue0, rel * (U / p10(ue0))):
         N, ue = (10 ** (d - 1), ue0 + 1) if N == 10 ** d else (N, ue0)
         if uq == N * p10(ue): ok_u.append((N, ue))
     if not ok_u:
         return bad('u\' = %s is not u rounded to %d significant digits (u = %r)' % (uq, d, u))
+    if all(unit > ue for N, ue in ok_u):
+        return bad('the last printed place 10^%d is coarser than the place 10^%d at which u has %d significant digits'
+                   % (unit, ok_u[0][1], d))
     for N, ue in ok_u:
         if unit > ue: continue      # the last printed place must not be coarser than the rounding place
         Ms = candidates(abs(X), ue, rel * (abs(X) / p10(ue)))
@@ -147,44 +153,50 @@ def check_padding(x, u, d, ty, rng):
         return {'x': x, 'u': u, 'digits': d, 'type': ty, 'spec': '+', 'output': sp, 'why': 'sign option changed more than the sign'}
     return None
 
-def check_apply(x, u, d, ty, df):
-    """apply_format (types f F %): the rounded quantities in the units of the original number, dof truncated"""
+def check_apply(x, u, d, ty, df, dfp=1):
+    """apply_format, every presentation type: the rounded quantities in the units of the original number, dof truncated
+    to df_precision decimals"""
     from GTC import core, formatting as F
     new_context(18)
     un = core.ureal(x, u, df)
+    rec = {'x': x, 'u': u, 'digits': d, 'type': ty, 'apply': True, 'df': df, 'df_precision': dfp}
     try:
-        fm = F.create_format(un, digits=d, type=ty, df_precision=1)
+        fm = F.create_format(un, digits=d, type=ty, df_precision=dfp)
         a = F.apply_format(un, fm)
     except Exception as ex:
-        return {'x': x, 'u': u, 'digits': d, 'type': ty, 'apply': True, 'output': 'EXC ' + type(ex).__name__, 'why': 'apply_format raised'}
+        return dict(rec, output='EXC ' + type(ex).__name__, why='apply_format raised')
     X, U = Fraction(x), Fraction(u)
     e = floor_log10(U); ue0 = e - d + 1
-    oku = False
-    for N in candidates(U, ue0, 0):
+    rel = Fraction(2, 2 ** 52)
+    for N in candidates(U, ue0, rel * (U / p10(ue0))):
         N, ue = (10 ** (d - 1), ue0 + 1) if N == 10 ** d else (N, ue0)
         if a.u == float(N * p10(ue)):
-            oku = True
-            if any(abs(a.x) == float(M * p10(ue)) for M in candidates(abs(X), ue, 0)):
-                want_df = math.inf if df > 1e5 else float(Fraction(math.floor(Fraction(df) * 10), 10))
-                if a.df == want_df: return None
-                return {'x': x, 'u': u, 'digits': d, 'type': ty, 'apply': True, 'df': df, 'output': [a.x, a.u, a.df], 'why': 'dof not truncated to 1 decimal'}
-    return {'x': x, 'u': u, 'digits': d, 'type': ty, 'apply': True, 'df': df, 'output': [a.x, a.u, a.df],
-            'why': 'apply_format numbers are not the rounded x, u in the units of the original number'}
+            if any(abs(a.x) == float(M * p10(ue)) for M in candidates(abs(X), ue, rel * (abs(X) / p10(ue)))):
+                if df > 1e5:
+                    wants = [math.inf]
+                else:
+                    # truncation of the exact binary value, or of the decimal the float stands for (its repr): a dof
+                    # like 99999.95 (binary 99999.94999...) may legitimately stay 99999.95
+                    wants = [float(Fraction(math.floor(Fraction(v) * 10 ** dfp), 10 ** dfp)) for v in (df, repr(df))]
+                if a.df in wants: return None
+                return dict(rec, output=[a.x, a.u, a.df], why='dof not truncated to %d decimals (expected %r)' % (dfp, wants[-1]))
+    return dict(rec, output=[a.x, a.u, a.df],
+                why='apply_format numbers are not the rounded x, u in the units of the original number')
 
-def check_repr(x, u, df):
+def check_repr(x, u, df, label=None):
     from GTC import core
-    from GTC import ureal, inf, nan      # names repr() uses
     new_context(18)
-    un = core.ureal(x, u, df)
+    un = core.ureal(x, u, df, label=label) if label is not None else core.ureal(x, u, df)
     s = repr(un)
     new_context(19)
+    rec = {'x': x, 'u': u, 'df': df, 'label': label, 'repr': s}
     try:
         back = eval(s, {'ureal': core.ureal, 'inf': math.inf, 'nan': math.nan})
     except Exception as ex:
-        return {'x': x, 'u': u, 'df': df, 'repr': s, 'why': 'repr does not evaluate: %r' % (ex,)}
+        return dict(rec, why='repr does not evaluate: %r' % (ex,))
     want_df = math.inf if df > 1e5 else df
-    if back.x != x or back.u != u or back.df != want_df:
-        return {'x': x, 'u': u, 'df': df, 'repr': s, 'why': 'repr evaluates to a different number'}
+    if back.x != x or back.u != u or back.df != want_df or back.label != label:
+        return dict(rec, why='repr evaluates to a different number (dof above 1e5 must be shown as inf)')
     return None
 
 def search(rng, tier, broken):
@@ -202,17 +214,19 @@ def search(rng, tier, broken):
         r = check_format(x, u, d, ty, rng.choice(['', '', '+', ' ', '-']))
         if r is None and i % 5 == 0:
             r = check_padding(x, u, d, ty, rng)
-        if r is None and i % 4 == 0 and ty in 'fF%':
-            r = check_apply(x, u, d, ty, rng.choice([3.0, 7.89, 12.3456789, 99999.95, 100000.0, 100000.5, math.inf]))
+        if r is None and i % 4 == 0:
+            dfp = rng.choice([0, 1, 1, 2, 3])
+            df = rng.choice([3.0, 7.0, 9.5, 8.25, 23.0, 7.89, 12.3456789, 99999.95, 100000.0, 100000.5, math.inf])
+            r = check_apply(x, u, d, ty, df, dfp)
         if r is None and i % 10 == 0:
-            r = check_repr(x, u, rng.choice([3.0, 7.89, 100000.0, 100000.5, 1e6, math.inf]))
+            r = check_repr(x, u, rng.choice([3.0, 7.89, 100000.0, 100000.5, 100001.0, 2e5, 1e6, math.inf]),
+                           rng.choice([None, 'R1', "it's"]))
         if r is not None and not is_known(r):
             return {'tried': tried, 'failing': r, 'skipped_known_regions': skipped}
     return {'tried': tried, 'failing': None, 'skipped_known_regions': skipped}
 
 def is_known(f):
     if not isinstance(f, dict): return False
-    if f.get('apply') and str(f.get('type', '')).lower() in ('e', 'g'): return True          # K4
     if 'digits' in f and 'type' in f and 'x' in f and 'u' in f and not f.get('apply'):
         try:
             return known_region(float(f['x']), float(f['u']), int(f['digits']), str(f['type'])) is not None
@@ -226,9 +240,9 @@ def replay(payload):
     if not f:
         return 0
     if 'repr' in f:
-        r = check_repr(f['x'], f['u'], f['df'])
+        r = check_repr(f['x'], f['u'], f['df'], f.get('label'))
     elif f.get('apply'):
-        r = check_apply(f['x'], f['u'], f['digits'], f['type'], f.get('df', math.inf))
+        r = check_apply(f['x'], f['u'], f['digits'], f['type'], f.get('df', math.inf), f.get('df_precision', 1))
     elif 'spec' in f:
         r = check_padding(f['x'], f['u'], f['digits'], f['type'], random.Random(0)) or \
             check_format(f['x'], f['u'], f['digits'], f['type'])
